@@ -142,6 +142,23 @@ func (fc *FnCtx) callStatic(instr ssa.Instruction, fn *ssa.Function, args []Val,
 	sig := fn.Signature
 	if con != nil {
 		if con.Pure && !fc.eng.isSelf(fc, fn) {
+			if con.Opaque && !fc.pureMode && len(con.Requires)+len(con.Ensures) > 0 && fn.Blocks != nil {
+				// an opaque function with a verified contract: at a call in code its requires are
+				// obligations and its ensures (proved of its body) are known of the application
+				targs := fc.termArgs(args)
+				env := fc.calleeEnv(con, fn, sig, targs, st, st, nil)
+				site := fc.siteOrdinal(instr, fc.eng.shortFn(fn))
+				for j, c := range con.Requires {
+					fc.oblige(st, "call-pre", fmt.Sprintf("%s#call-pre#%s.%d@%d", fc.fnName(), fc.eng.shortFn(fn), j, site), fc.transBool(env, c), fc.eng.pos(instr.Pos()), "requires of "+fc.eng.shortFn(fn)+": "+c.Text)
+				}
+				res := fc.eng.pureApp(fc, fn, targs, st)
+				env.st = st
+				env.setResults(res, sig)
+				for _, c := range con.Ensures {
+					fc.assume(st, fc.transBool(env, c))
+				}
+				return res
+			}
 			return fc.eng.pureApp(fc, fn, fc.termArgs(args), st)
 		}
 		if fc.pureMode && fc.eng.autoPure(fn) {
